@@ -3,6 +3,8 @@ package broker
 import (
 	"fmt"
 
+	"verif/sim/refmqtt"
+
 	"verif/sim/simrt"
 	"verif/sim/world"
 )
@@ -915,4 +917,425 @@ func genSession(prop string) func(tier string, seed uint64, idx int) interface{}
 		x.sc.Clients = append(x.sc.Clients, cl)
 		return x.sc
 	}
+}
+
+func (x *g) clientIDVariant() (string, string) {
+	r := x.r
+	switch r.Intn(9) {
+	case 0:
+		return "", "empty"
+	case 1:
+		return "a", "ok"
+	case 2:
+		return "Abc123xyz", "ok"
+	case 3:
+		return "abcdefghijklmnopqrstuvw", "ok" // 23
+	case 4:
+		return "abcdefghijklmnopqrstuvwx", "long" // 24
+	case 5:
+		return "client-with-dash", "chars"
+	case 6:
+		return "sp ace", "chars"
+	case 7:
+		return "id_\u00e9", "chars"
+	default:
+		return fmt.Sprintf("c%d", r.Intn(1000)), "ok"
+	}
+}
+
+// firstPacket builds the first bytes an attacker sends.
+func (x *g) firstPacket(cid string) ([]byte, string) {
+	r := x.r
+	switch k := r.Intn(20); {
+	case k < 3:
+		// some other packet type first
+		t := byte(2 + r.Intn(13))
+		p := &refmqtt.Packet{Type: t, ID: uint16(1 + r.Intn(100)), Topic: "c11/first", Payload: []byte("x"), Filters: []string{"#"}, QoSs: []byte{0}}
+		return refmqtt.Encode(p), "type-" + refmqtt.TypeName(t)
+	case k < 4:
+		b := make([]byte, 2+r.Intn(20))
+		for i := range b {
+			b[i] = byte(r.Intn(256))
+		}
+		return b, "random-bytes"
+	}
+	p := &refmqtt.Packet{Type: refmqtt.CONNECT, ClientID: cid, CleanSession: r.Bool(1, 2), KeepAlive: uint16([]int{0, 30, 600}[r.Intn(3)])}
+	kind := "connect"
+	switch r.Intn(12) {
+	case 0:
+		p.ProtoName, p.ProtoLevel = "MQIsdp", 3
+	case 1:
+		p.ProtoName, p.ProtoLevel = "MQTT", byte([]int{3, 5, 0, 255}[r.Intn(4)])
+		kind = "connect-bad-level"
+	case 2:
+		p.ProtoName, p.ProtoLevel = "MQIsdp", 4
+		kind = "connect-bad-level"
+	case 3:
+		p.ProtoName, p.ProtoLevel = []string{"MQXX", "mqtt", "MQTTT", "M"}[r.Intn(4)], 4
+		kind = "connect-bad-name"
+	}
+	if r.Bool(1, 3) {
+		p.WillFlag = true
+		p.WillQoS = byte(r.Intn(3))
+		p.WillRetain = r.Bool(1, 3)
+		p.WillTopic = "c11/will"
+		p.WillMessage = payload(srcWill+1, 99, 8+r.Intn(30))
+	}
+	switch r.Intn(4) {
+	case 0:
+		p.HasUser, p.HasPass = true, true
+		p.User = "u1"
+		p.Pass = []byte("secret-u1")
+		if r.Bool(1, 3) {
+			p.Pass = []byte("wrong")
+		}
+	case 1:
+		p.HasUser = true
+		p.User = "u2"
+	}
+	b := refmqtt.Encode(p)
+	switch r.Intn(14) {
+	case 0:
+		// reserved flag
+		q := *p
+		q.ConnFlags = connFlags(p) | 1
+		return refmqtt.Encode(&q), "connect-reserved-flag"
+	case 1:
+		q := *p
+		q.WillFlag = false
+		q.ConnFlags = (connFlags(&q) &^ 4) | byte(1+r.Intn(2))<<3
+		return refmqtt.Encode(&q), "connect-willqos-without-will"
+	case 2:
+		q := *p
+		q.ConnFlags = connFlags(p) | 4 | 3<<3
+		q.WillTopic, q.WillMessage = "c11/will", []byte("w")
+		return refmqtt.Encode(&q), "connect-willqos-3"
+	case 3:
+		q := *p
+		q.HasUser, q.HasPass = false, true
+		q.Pass = []byte("p")
+		q.ConnFlags = (connFlags(p) &^ 0x80) | 0x40
+		return refmqtt.Encode(&q), "connect-password-without-user"
+	case 4:
+		// truncated: the fixed header promises more than is ever sent
+		cut := 1 + r.Intn(len(b)-1)
+		return b[:cut], "connect-truncated"
+	case 5:
+		// remaining length shorter than the body
+		c := append([]byte{}, b...)
+		if c[1] > 4 {
+			c[1] -= byte(1 + r.Intn(4))
+		}
+		return c, "connect-short-remlen"
+	}
+	return b, kind
+}
+
+func connFlags(p *refmqtt.Packet) byte {
+	var cf byte
+	if p.CleanSession {
+		cf |= 2
+	}
+	if p.WillFlag {
+		cf |= 4 | p.WillQoS<<3
+		if p.WillRetain {
+			cf |= 0x20
+		}
+	}
+	if p.HasPass {
+		cf |= 0x40
+	}
+	if p.HasUser {
+		cf |= 0x80
+	}
+	return cf
+}
+
+// genConnect is the C11 profile.
+func genConnect(prop string) func(tier string, seed uint64, idx int) interface{} {
+	return func(tier string, seed uint64, idx int) interface{} {
+		x := newGen(seed, prop, idx, tier)
+		r := x.r
+		x.sc.Profile = "connect"
+		x.knobs()
+		x.sc.Knobs.LinkCap = 65536
+		x.sc.Knobs.Authenticator = []string{"", "", "mockFailure", "verifPass"}[r.Intn(4)]
+		x.alphabet(false)
+		na := 1 + r.Intn(2)
+		nc := 1 + 2*na
+		x.seq = make([]int, nc)
+		x.pid = make([]int, nc)
+		w := Client{Role: "witness"}
+		wc := x.connect(0, true)
+		wc.Auth, wc.User, wc.Pass = true, "w", "secret-w"
+		w.Ops = append(w.Ops, wc, Op{K: "sub", PID: 1, Filters: []string{"#"}, QoSs: []byte{2}}, Op{K: "barrier"}, Op{K: "barrier"}, Op{K: "barrier"}, Op{K: "ping"})
+		x.sc.Clients = append(x.sc.Clients, w)
+		for a := 0; a < na; a++ {
+			ai := 1 + 2*a
+			cid, _ := x.clientIDVariant()
+			cl := Client{Role: "attacker"}
+			cl.Ops = append(cl.Ops, Op{K: "barrier"}, Op{K: "open"})
+			fp, _ := x.firstPacket(cid)
+			cl.Ops = append(cl.Ops, Op{K: "raw", Raw: fp})
+			// further packets, pipelined behind the first one
+			for k := r.Intn(4); k > 0; k-- {
+				var p *refmqtt.Packet
+				switch r.Intn(4) {
+				case 0:
+					p = &refmqtt.Packet{Type: refmqtt.SUBSCRIBE, ID: 7, Filters: []string{"#"}, QoSs: []byte{1}}
+				case 1:
+					x.seq[ai]++
+					p = &refmqtt.Packet{Type: refmqtt.PUBLISH, Topic: fmt.Sprintf("c11/r%d", ai), Retain: true, QoS: 0, Payload: payload(ai, x.seq[ai], 8+r.Intn(30))}
+				case 2:
+					x.seq[ai]++
+					p = &refmqtt.Packet{Type: refmqtt.PUBLISH, Topic: "c11/live", QoS: 1, ID: 9, Payload: payload(ai, x.seq[ai], 8+r.Intn(30))}
+				default:
+					p = &refmqtt.Packet{Type: refmqtt.PINGREQ}
+				}
+				cl.Ops = append(cl.Ops, Op{K: "raw", Raw: refmqtt.Encode(p)})
+			}
+			// let the connect timeout pass, then see what happened
+			cl.Ops = append(cl.Ops, Op{K: "sleep", D: 2500 + r.Intn(3000)}, Op{K: "barrier"}, Op{K: "barrier"})
+			x.sc.Clients = append(x.sc.Clients, cl)
+			// prober: same identifier, persistent session, looks at retained state
+			pr := Client{Role: "prober"}
+			pc := Op{K: "connect", CID: cid, Clean: false, KA: 600, Auth: true, User: "p", Pass: "secret-p"}
+			if cid == "" {
+				pc.CID = "prober"
+			}
+			pr.Ops = append(pr.Ops, Op{K: "barrier"}, Op{K: "barrier"}, pc, Op{K: "sub", PID: 1, Filters: []string{"#"}, QoSs: []byte{1}}, Op{K: "ping"}, Op{K: "barrier"})
+			x.sc.Clients = append(x.sc.Clients, pr)
+		}
+		return x.sc
+	}
+}
+
+// samplePacket returns a valid packet of the given type.
+func samplePacket(t byte, seq int) *refmqtt.Packet {
+	p := &refmqtt.Packet{Type: t, ID: uint16(100 + seq)}
+	switch t {
+	case refmqtt.CONNECT:
+		p.ClientID, p.CleanSession, p.KeepAlive = fmt.Sprintf("att%d", seq), true, 600
+		p.WillFlag, p.WillTopic, p.WillMessage, p.WillQoS = true, "att/will", []byte("gone"), 1
+		p.HasUser, p.HasPass, p.User, p.Pass = true, true, "user", []byte("secret-user")
+	case refmqtt.CONNACK:
+		p.Code = 0
+	case refmqtt.PUBLISH:
+		p.Topic, p.QoS, p.Payload = "att/topic", byte(seq%3), payload(90, seq, 24)
+		if p.QoS == 0 {
+			p.ID = 0
+		}
+	case refmqtt.SUBSCRIBE:
+		p.Filters, p.QoSs = []string{"att/#", "w/none"}, []byte{1, 0}
+	case refmqtt.SUBACK:
+		p.QoSs = []byte{0, 1}
+	case refmqtt.UNSUBSCRIBE:
+		p.Filters = []string{"att/#", "x/y"}
+	}
+	return p
+}
+
+// corrupt damages a valid encoding in one of several ways; it reports whether
+// the connection should be cut right after the bytes.
+func corrupt(r *simrt.Rand, b []byte) ([]byte, bool, string) {
+	c := append([]byte{}, b...)
+	switch r.Intn(8) {
+	case 0:
+		k := 1 + r.Intn(len(c)-1)
+		return c[:k], true, "truncated"
+	case 1:
+		c[r.Intn(len(c))] ^= byte(1 << uint(r.Intn(8)))
+		return c, false, "bitflip"
+	case 2:
+		if len(c) > 1 {
+			c[1] = byte(int(c[1])+1+r.Intn(30)) & 0x7f // remaining length too large: the broker waits for more
+		}
+		return c, r.Bool(1, 2), "remlen-larger"
+	case 3:
+		if len(c) > 1 && c[1] > 0 {
+			c[1] = byte(r.Intn(int(c[1])))
+		}
+		return c, false, "remlen-smaller"
+	case 4:
+		// a length prefix pointing beyond the packet
+		if len(c) > 4 {
+			i := 2 + r.Intn(len(c)-3)
+			c[i], c[i+1] = 0xff, 0xff
+		}
+		return c, false, "length-prefix"
+	case 5:
+		// maximal 4-byte remaining length, nothing behind it
+		return []byte{c[0], 0xff, 0xff, 0xff, 0x7f}, r.Bool(1, 2), "remlen-max"
+	case 6:
+		// overlong 5-byte remaining length
+		return []byte{c[0], 0x80 | byte(r.Intn(128)), 0x80 | byte(r.Intn(128)), 0x80 | byte(r.Intn(128)), 0x80 | byte(r.Intn(128)), byte(1 + r.Intn(0x7e)), 0, 0}, false, "remlen-5-bytes"
+	default:
+		c[0] = c[0]&0xf0 | byte(r.Intn(16)) // flags
+		return c, false, "flags"
+	}
+}
+
+func (x *g) witnessPair(rounds int) (Client, Client) {
+	r := x.r
+	wp := Client{Role: "witness"}
+	ws := Client{Role: "witness"}
+	wp.Ops = append(wp.Ops, Op{K: "connect", CID: "wpub", Clean: true, KA: 600, Auth: true, User: "wpub", Pass: "secret-wpub"})
+	ws.Ops = append(ws.Ops, Op{K: "connect", CID: "wsub", Clean: true, KA: 600, Auth: true, User: "wsub", Pass: "secret-wsub"}, Op{K: "sub", PID: 1, Filters: []string{"w/#"}, QoSs: []byte{byte([]int{2, 2, 1, 0}[r.Intn(4)])}})
+	wp.Ops = append(wp.Ops, Op{K: "barrier"})
+	ws.Ops = append(ws.Ops, Op{K: "barrier"})
+	for i := 0; i < rounds; i++ {
+		for k := 2 + r.Intn(6); k > 0; k-- {
+			x.seq[0]++
+			op := Op{K: "pub", Topic: "w/a", QoS: byte(r.Intn(3)), Size: x.size(), Seq: x.seq[0]}
+			if r.Bool(1, 6) {
+				op.Size = 8 + r.Intn(30)
+			}
+			if op.QoS > 0 {
+				op.PID = x.nextPID(0)
+			}
+			wp.Ops = append(wp.Ops, op)
+		}
+		wp.Ops = append(wp.Ops, Op{K: "ping"}, Op{K: "barrier"})
+		ws.Ops = append(ws.Ops, Op{K: "ping"}, Op{K: "barrier"})
+	}
+	ws.Ops = append(ws.Ops, Op{K: "ping"})
+	wp.Ops = append(wp.Ops, Op{K: "ping"})
+	return wp, ws
+}
+
+func (x *g) attacker(ai int, kind int) Client {
+	r := x.r
+	cl := Client{Role: "attacker"}
+	cl.Ops = append(cl.Ops, Op{K: "barrier"})
+	for i := r.Intn(3); i > 0; i-- {
+		cl.Ops = append(cl.Ops, Op{K: "sleep", D: 0})
+	}
+	valid := Op{K: "connect", CID: fmt.Sprintf("att%d", ai), Clean: r.Bool(2, 3), KA: 600, Auth: true, User: "a", Pass: "secret-a"}
+	if r.Bool(1, 3) {
+		valid.Will = &Will{Topic: "att/will", QoS: byte(r.Intn(3)), Size: 8 + r.Intn(20)}
+	}
+	switch kind {
+	case 0: // garbage before CONNECT
+		fp, _ := x.firstPacket(valid.CID)
+		if r.Bool(1, 2) {
+			c, _, _ := corrupt(r, refmqtt.Encode(samplePacket(refmqtt.CONNECT, ai)))
+			fp = c
+		}
+		cl.Ops = append(cl.Ops, Op{K: "open"}, Op{K: "raw", Raw: fp})
+		switch r.Intn(4) {
+		case 0:
+			cl.Ops = append(cl.Ops, Op{K: "sleep", D: 2200 + r.Intn(1000)})
+		case 1:
+			cl.Ops = append(cl.Ops, Op{K: "rst"})
+		case 2:
+			cl.Ops = append(cl.Ops, Op{K: "close"})
+		}
+	case 1: // corrupted packets after a valid CONNECT
+		cl.Ops = append(cl.Ops, valid)
+		for k := 1 + r.Intn(4); k > 0; k-- {
+			t := byte(1 + r.Intn(14))
+			b, cut, _ := corrupt(r, refmqtt.Encode(samplePacket(t, ai*10+k)))
+			op := Op{K: "raw", Raw: b}
+			if cut {
+				op.Cut = len(b)
+			}
+			cl.Ops = append(cl.Ops, op)
+			if cut {
+				break
+			}
+		}
+		if r.Bool(1, 3) {
+			cl.Ops = append(cl.Ops, Op{K: []string{"close", "rst"}[r.Intn(2)]})
+		}
+	case 2: // subscribes to the witness traffic, then vanishes while it is being delivered to
+		cl.Ops = append(cl.Ops, valid, Op{K: "sub", PID: 5, Filters: []string{[]string{"w/#", "#", "w/a", "+/a"}[r.Intn(4)]}, QoSs: []byte{byte(r.Intn(3))}, NoWait: r.Bool(1, 3)})
+		if r.Bool(1, 3) {
+			cl.Ops = append(cl.Ops, Op{K: "stall"})
+			cl.AckMode = "none"
+		}
+		for i := r.Intn(6); i > 0; i-- {
+			cl.Ops = append(cl.Ops, Op{K: "ping", NoWait: r.Bool(1, 2)})
+		}
+		cl.Ops = append(cl.Ops, Op{K: []string{"close", "rst", "disc"}[r.Intn(3)]})
+	case 3: // a packet larger than the ring
+		cl.Ops = append(cl.Ops, valid)
+		n := x.sc.Knobs.BufSize + r.Intn(8000)
+		p := &refmqtt.Packet{Type: refmqtt.PUBLISH, Topic: "att/big", Payload: make([]byte, n)}
+		b := refmqtt.Encode(p)
+		if r.Bool(1, 2) {
+			b = b[:len(b)/2+r.Intn(len(b)/2)]
+		}
+		cl.Ops = append(cl.Ops, Op{K: "raw", Raw: b}, Op{K: "sleep", D: 0})
+	default: // publishes into the witness topic, then is cut inside a packet
+		cl.Ops = append(cl.Ops, valid)
+		for k := 1 + r.Intn(3); k > 0; k-- {
+			x.seq[ai]++
+			op := Op{K: "pub", Topic: "w/x", QoS: byte(r.Intn(3)), Size: 8 + r.Intn(200), Seq: x.seq[ai], NoWait: r.Bool(1, 2)}
+			if op.QoS > 0 {
+				op.PID = x.nextPID(ai)
+			}
+			if op.QoS == 2 {
+				op.NoWait = false
+			}
+			cl.Ops = append(cl.Ops, op)
+		}
+		b := refmqtt.Encode(samplePacket(refmqtt.PUBLISH, ai))
+		cl.Ops = append(cl.Ops, Op{K: "raw", Raw: b, Cut: 1 + r.Intn(len(b)-1)})
+	}
+	return cl
+}
+
+// genWitness is the C05 profile: a witness publisher/subscriber pair whose
+// traffic must stay exact while attacker connections misbehave.
+func genWitness(prop string) func(tier string, seed uint64, idx int) interface{} {
+	return func(tier string, seed uint64, idx int) interface{} {
+		x := newGen(seed, prop, idx, tier)
+		r := x.r
+		x.sc.Profile = "witness"
+		x.knobs()
+		x.sc.Knobs.Authenticator = []string{"", "", "verifPass"}[r.Intn(3)]
+		x.alphabet(false)
+		na := 1 + r.Intn(3)
+		nc := 2 + na
+		x.seq = make([]int, nc)
+		x.pid = make([]int, nc)
+		wp, ws := x.witnessPair(1 + r.Intn(3))
+		x.sc.Clients = append(x.sc.Clients, wp, ws)
+		for a := 0; a < na; a++ {
+			x.sc.Clients = append(x.sc.Clients, x.attacker(2+a, r.Intn(5)))
+		}
+		return x.sc
+	}
+}
+
+// enumWitness enumerates every truncation point of a valid packet of every
+// type, before and after a valid CONNECT, with the connection cut there.
+func enumWitness(tier string) []interface{} {
+	var out []interface{}
+	for t := byte(1); t <= 14; t++ {
+		b := refmqtt.Encode(samplePacket(t, int(t)))
+		for pre := 0; pre < 2; pre++ {
+			for cut := 1; cut < len(b); cut++ {
+				x := &g{r: simrt.NewRand(uint64(t)*1000 + uint64(cut)*2 + uint64(pre)), sc: &Script{}, tier: tier}
+				x.sc.Profile = "witness"
+				x.knobs()
+				x.sc.Knobs.LinkCap = 65536
+				x.alphabet(false)
+				x.seq = make([]int, 3)
+				x.pid = make([]int, 3)
+				wp, ws := x.witnessPair(1)
+				cl := Client{Role: "attacker"}
+				cl.Ops = append(cl.Ops, Op{K: "barrier"})
+				if pre == 0 {
+					cl.Ops = append(cl.Ops, Op{K: "open"})
+				} else {
+					cl.Ops = append(cl.Ops, Op{K: "connect", CID: "att", Clean: true, KA: 600})
+				}
+				cl.Ops = append(cl.Ops, Op{K: "raw", Raw: b, Cut: cut})
+				x.sc.Clients = append(x.sc.Clients, wp, ws, cl)
+				out = append(out, x.sc)
+			}
+		}
+	}
+	return out
 }
